@@ -31,10 +31,15 @@ def pause_execution(
         UPDATE pipeline_executions SET
             status = :status,
             paused = :paused
-        WHERE id = :id
+        WHERE id = :id AND status IN (:running, :not_started)
         """,
         {
             "id": execution_id,
+            # Only a workflow that has not finished can be paused: without the
+            # status condition a SUCCEEDED / CANCELED workflow became PAUSED
+            # and resume() then made it RUNNING for good.
+            "running": WorkflowStatus.RUNNING.name,
+            "not_started": WorkflowStatus.NOT_STARTED.name,
             "status": WorkflowStatus.PAUSED.name,
             "paused": json.dumps(paused_to_dict(paused)),
         },
